@@ -20,9 +20,11 @@ import (
 	"context"
 	"encoding/json"
 	"fmt"
+	"io/fs"
 	"os"
 	"sort"
 	"strings"
+	"sync"
 
 	"github.com/benhoyt/goawk/interp"
 	"github.com/benhoyt/goawk/parser"
@@ -63,6 +65,14 @@ BEGIN {
     printf "%s", "e" > "/dev/stderr"
   }
   if (mode == "getline_begin") { getline; getline y }
+  if (mode == "getline_stdin") { getline gs < "-" }
+  if (mode == "pipe_in") { "echo p1; echo p2" | getline pl }
+  if (mode == "p_streams") {
+    while ((getline sl < "-") > 0) printf "stdin=[%s]\n", sl
+    if ((getline fl < aux) > 0) printf "file=[%s]\n", fl
+    printf "o1\n" > outf; close(outf); if ((getline ol < outf) > 0) printf "outf=[%s]\n", ol
+    if (usepipe) { "echo p1; echo p2" | getline pl2; printf "pipe=[%s]\n", pl2 }
+  }
   if (mode == "p_all") {
     printf "NR=%d FNR=%d NF=%d\n", NR, FNR, NF
     printf "rec0=[%s]\n", $0
@@ -109,6 +119,12 @@ BEGIN {
   if (mode == "setvars") { FS = ":"; OFS = "-"; ORS = "|\n"; x = "leak"; A["k"] = 1; srand(7); NR = 5; $0 = "p q" }
   if (mode == "err_forin") { A[1]; for (k in A) { x = 1/zero } }
   if (mode == "cancel_loop") { while (1) n++ }
+  if (mode == "getline_stdin") { getline gs < "-" }
+  if (mode == "p_streams") {
+    while ((getline sl < "-") > 0) printf "stdin=[%s]\n", sl
+    if ((getline fl < aux) > 0) printf "file=[%s]\n", fl
+    printf "o1\n" > outf; close(outf); if ((getline ol < outf) > 0) printf "outf=[%s]\n", ol
+  }
   if (mode == "p_all") {
     printf "NR=%d FNR=%d NF=%d rec0=[%s] FILENAME=[%s] ARGC=%d\n", NR, FNR, NF, $0, FILENAME, ARGC
     printf "FS=[%s] OFS=[%s] ORS=[%s] x=[%s] An=%d rand=[%s]\n", FS, OFS, ORS, x, length(A), rand()
@@ -152,7 +168,9 @@ type RunSpec struct {
 	NoArgVars  bool     `json:"no_arg_vars"`
 	Chars      bool     `json:"chars"`
 	Newline    int      `json:"newline"`
-	Ctx        string   `json:"ctx"` // "" Execute; "bg" ExecuteContext(Background); "live" WithCancel; "cancelled" WithCancel+cancel
+	OpenFile   string   `json:"open_file"` // "" Config.OpenFile nil; "os" os.OpenFile given explicitly; "deny" a function that refuses every file
+	Pipe       bool     `json:"pipe"`      // the probe also reads from a command
+	Ctx        string   `json:"ctx"`       // "" Execute; "bg" ExecuteContext(Background); "live" WithCancel; "cancelled" WithCancel+cancel
 }
 
 type Case struct {
@@ -164,19 +182,57 @@ type Case struct {
 }
 
 var histModes = []string{"exit", "err_fn", "err_forin", "cancel_loop", "cancel_fn", "cancel_forin", "err_deep",
-	"setvars", "setre", "setmodes", "io", "getline_begin", "hdr", "count", "err_main", "range", "nextfile", "endset"}
-var histModesB = []string{"exit", "err_forin", "cancel_loop", "setvars", "hdr", "count", "err_main", "endset"}
-var probeModes = []string{"p_all", "p_run", "p_at_begin", "p_at_main", "p_at_end", "p_getline_nf", "p_deep"}
-var probeModesB = []string{"p_all", "p_run", "p_at_begin", "p_at_main", "p_at_end", "p_getline_nf"}
+	"setvars", "setre", "setmodes", "io", "getline_begin", "getline_stdin", "pipe_in", "hdr", "count", "err_main", "range", "nextfile", "endset"}
+var histModesB = []string{"exit", "err_forin", "cancel_loop", "setvars", "getline_stdin", "hdr", "count", "err_main", "endset"}
+var probeModes = []string{"p_all", "p_run", "p_at_begin", "p_at_main", "p_at_end", "p_getline_nf", "p_deep", "p_streams"}
+var probeModesB = []string{"p_all", "p_run", "p_at_begin", "p_at_main", "p_at_end", "p_getline_nf", "p_streams"}
 
 var inputs = []string{"", "a,b\n1,2\n3,4\n", "x y z\ns\nm\ne\nw\n", "b,a,c\n\"q,1\",2,3\n", "one\n", "a\tb\n5\t6\n", "1,2,3\n", "k:v;k2:v2;", "#c\na,b\n7,8\n"}
 
 func (s RunSpec) vars() []string {
 	v := []string{"mode", s.Mode, "aux", "aux.txt", "aux2", "aux2.txt", "outf", "out.txt", "stop", "2"}
+	if s.Pipe {
+		v = append(v, "usepipe", "1")
+	}
 	return append(v, s.Vars...)
 }
 
-func (s RunSpec) config(in *strings.Reader, out *bytes.Buffer) *interp.Config {
+// syncBuf is the Output and Error writer of every run. It is locked and has no ReadFrom: with
+// `cmd | getline` goawk attaches Config.Error to the child's stderr, which os/exec copies from its own goroutine
+// (io.Copy into a bytes.Buffer would use ReadFrom and lose what the interpreter writes meanwhile).
+type syncBuf struct {
+	mu sync.Mutex
+	b  []byte
+}
+
+func (w *syncBuf) Write(p []byte) (int, error) {
+	w.mu.Lock()
+	defer w.mu.Unlock()
+	w.b = append(w.b, p...)
+	return len(p), nil
+}
+func (w *syncBuf) String() string {
+	w.mu.Lock()
+	defer w.mu.Unlock()
+	return string(w.b)
+}
+
+func denyOpen(name string, flag int, perm os.FileMode) (*os.File, error) {
+	return nil, &fs.PathError{Op: "open", Path: name, Err: fs.ErrPermission}
+}
+
+func (s RunSpec) config(in *strings.Reader, out *syncBuf) *interp.Config {
+	c := s.config0(in, out)
+	switch s.OpenFile {
+	case "os":
+		c.OpenFile = os.OpenFile
+	case "deny":
+		c.OpenFile = denyOpen
+	}
+	return c
+}
+
+func (s RunSpec) config0(in *strings.Reader, out *syncBuf) *interp.Config {
 	return &interp.Config{
 		Stdin: in, Output: out, Error: out, Argv0: s.Argv0, Args: s.Args, NoArgVars: s.NoArgVars, Vars: s.vars(),
 		NoExec: s.NoExec, NoFileWrites: s.NoWrites, NoFileReads: s.NoReads, Environ: append([]string{}, s.Environ...),
@@ -213,7 +269,7 @@ func (o outcome) String() string {
 
 // execPublic runs one spec through the public API.
 func execPublic(ip *interp.Interpreter, s RunSpec) (res outcome) {
-	var out bytes.Buffer
+	var out syncBuf
 	defer func() {
 		if r := recover(); r != nil {
 			res = outcome{Out: out.String(), Panic: fmt.Sprint(r)}
@@ -237,7 +293,7 @@ func execPublic(ip *interp.Interpreter, s RunSpec) (res outcome) {
 }
 
 func execProgram(prog *parser.Program, s RunSpec) (res outcome) {
-	var out bytes.Buffer
+	var out syncBuf
 	defer func() {
 		if r := recover(); r != nil {
 			res = outcome{Out: out.String(), Panic: fmt.Sprint(r)}
@@ -309,6 +365,12 @@ func genSpec(r *hx.Rand, mode string, probe bool) RunSpec {
 	if r.Intn(6) == 0 {
 		s.Newline = 1 + r.Intn(2)
 	}
+	switch r.Intn(10) {
+	case 0:
+		s.OpenFile = "deny"
+	case 1:
+		s.OpenFile = "os"
+	}
 	switch r.Intn(6) {
 	case 0:
 		s.Ctx = "bg"
@@ -356,6 +418,22 @@ func genCases(o hx.Opts, r *hx.Rand) []Case {
 						hs.Header = false
 					}
 					ps := RunSpec{Mode: p, Input: "1,2,3\n4,5\n", InputMode: 1}
+					if h == "pipe_in" && p == "p_streams" {
+						ps.Pipe = true
+					}
+					if (h == "io" || h == "getline_stdin") && (p == "p_streams" || p == "p_all") && pn == "A" {
+						// Config.OpenFile differs between the earlier run and the probe
+						for _, of := range [][2]string{{"", "deny"}, {"deny", ""}, {"os", "deny"}} {
+							hs2, ps2 := hs, ps
+							hs2.OpenFile, ps2.OpenFile = of[0], of[1]
+							if p == "p_all" {
+								ps2.Args = []string{"d2.csv"}
+							}
+							if p != "p_all" || full {
+								cs = append(cs, Case{Prog: pn, History: []RunSpec{hs2}, ResetVars: full, ResetRand: full, Probe: ps2})
+							}
+						}
+					}
 					if p == "p_all" && !full {
 						continue
 					}
@@ -424,7 +502,7 @@ func comparable(c Case) bool {
 	switch p.Mode {
 	case "p_all":
 		return false
-	case "p_run", "p_at_main", "p_at_end", "p_getline_nf":
+	case "p_run", "p_at_main", "p_at_end", "p_getline_nf", "p_streams":
 		// record reading must not depend on FS/RS: CSV or TSV input only
 		return p.InputMode == 1 || p.InputMode == 2
 	case "p_at_begin", "p_deep":
@@ -498,9 +576,9 @@ func searchOne(c Case, rep *hx.Report, check bool) (hist []outcome) {
 	// New + Execute on a new interpreter = ExecProgram (the reference the property names)
 	if c.Probe.Ctx == "" {
 		if ep := execProgram(prog, c.Probe); ep != want {
-			js, _ := json.Marshal(c.Probe)
+			js, _ := json.Marshal(c)
 			rep.Fail(hx.Failure{Class: "execprogram:" + firstDiff(ep, want), Oracle: "New + Execute = ExecProgram on the same Config",
-				Detail: map[string]any{"probe": json.RawMessage(js), "program": progSrc[c.Prog], "ExecProgram": ep.String(), "New+Execute": want.String()}})
+				Detail: map[string]any{"case": json.RawMessage(js), "program": progSrc[c.Prog], "ExecProgram": ep.String(), "New+Execute": want.String()}})
 		}
 	}
 	if got == want {
@@ -601,7 +679,7 @@ func cfgWire(c *interp.Config) string {
 		b(len(c.Vars)%2 != 0), b(len(c.Environ)%2 != 0),
 		fmt.Sprintf("i%d i%d i%d %s", int(c.InputMode), c.CSVInput.Separator, c.CSVInput.Comment, b(c.CSVInput.Header)),
 		fmt.Sprintf("i%d i%d", int(c.OutputMode), c.CSVOutput.Separator),
-		"N", // OpenFile nil
+		optVal(c.OpenFile == nil, c.OpenFile),
 		hx.HexS(c.Argv0), hexList(c.Args), b(c.NoArgVars), pairs(c.Vars), b(c.Chars), pairs(c.Environ),
 		"N", // ShellCommand empty
 		b(c.NoExec), b(c.NoFileWrites), b(c.NoFileReads),
@@ -610,6 +688,13 @@ func cfgWire(c *interp.Config) string {
 		fmt.Sprintf("i%d", int(c.NewlineOutput)),
 	}
 	return strings.Join(parts, " ")
+}
+
+func optVal(isNil bool, x any) string {
+	if isNil {
+		return "N"
+	}
+	return "S " + interp.VerifC14Val(x, false)
 }
 
 func entryWire(ctx context.Context) string {
@@ -650,7 +735,7 @@ func pcWire(d map[string]string) string {
 // stepExec performs Execute/ExecuteContext step by step on ip, recording one model request per step.
 // It returns the outcome (must equal the public API's) and whether setExecuteConfig succeeded.
 func (k *corr) stepExec(ip *interp.Interpreter, s RunSpec, run bool, tag string) (res outcome, prepared bool, cfgline, entry string) {
-	var out bytes.Buffer
+	var out syncBuf
 	defer func() {
 		if r := recover(); r != nil {
 			res = outcome{Out: out.String(), Panic: fmt.Sprint(r)}
@@ -738,7 +823,7 @@ func (k *corr) corrOne(c Case, rep *hx.Report, pub []outcome) {
 	}
 	// prepare reused and new interpreter for the probe with the SAME Config object, dump both, compare the
 	// set of observable fields that differ with the model's prediction
-	var out bytes.Buffer
+	var out syncBuf
 	cfg := c.Probe.config(strings.NewReader(c.Probe.Input), &out)
 	ctx, cancel := c.Probe.context()
 	defer cancel()
@@ -781,7 +866,8 @@ func corrSelected(c Case, i int, tier string) bool {
 	}
 	systematic := len(c.History) == 1 && c.History[0].Argv0 == "" && c.Probe.Argv0 == "" && len(c.Probe.Args) == 0 && c.History[0].Vars == nil && !c.History[0].NoExec
 	if systematic && i < 2000 {
-		return c.Probe.Mode == "p_run" || (c.Probe.Mode == "p_at_begin" && c.ResetVars && c.Probe.InputMode == 1)
+		return c.Probe.Mode == "p_run" || (c.Probe.Mode == "p_at_begin" && c.ResetVars && c.Probe.InputMode == 1) ||
+			(c.Probe.Mode == "p_streams" && c.ResetVars)
 	}
 	nRandomCorr++
 	return nRandomCorr <= 250
@@ -835,7 +921,7 @@ func setupFiles() string {
 func main() {
 	o := hx.ParseFlags()
 	rep := hx.NewReport("C14", o.Seed, o.Tier)
-	rep.Rule = "systematic: every history mode (exit, error in function / for-in / deep recursion / main rule, cancelled context in loop / function / for-in, assignments to all special variables, regex FS/RS, INPUTMODE/OUTPUTMODE, open streams, getline, CSV header run, range pattern, nextfile, $0 assigned in END) x every probe x {full reset, no reset} on two programs, plus random histories of 1-4 runs with random Config (modes, header, separators, Args incl. files / var=value / missing file, Vars, Environ, sandbox flags, Chars, newline mode, Execute vs ExecuteContext, rejected configurations) and random ResetVars/ResetRand; distinct = distinct (program, history modes+input modes+ctx+args, resets, probe mode+input mode+ctx); non-trivial = at least one run before the probe"
+	rep.Rule = "systematic: every history mode (exit, error in function / for-in / deep recursion / main rule, cancelled context in loop / function / for-in, assignments to all special variables, regex FS/RS, INPUTMODE/OUTPUTMODE, open file streams, getline, getline < \"-\" with stdin data left over, cmd | getline left open, CSV header run, range pattern, nextfile, $0 assigned in END) x every probe (incl. p_streams: getline < \"-\" / file / rewritten output file / command again) x {full reset, no reset} on two programs, Config.OpenFile nil / os.OpenFile / deny-all differing between earlier run and probe, plus random histories of 1-4 runs with random Config (modes, header, separators, Args incl. files / var=value / missing file, Vars, Environ, sandbox flags, Chars, newline mode, Execute vs ExecuteContext, rejected configurations) and random ResetVars/ResetRand; distinct = distinct (program, history modes+input modes+ctx+args, resets, probe mode+input mode+ctx); non-trivial = at least one run before the probe"
 	out := o.Out
 	if out != "" && !strings.HasPrefix(out, "/") {
 		wd, _ := os.Getwd()
@@ -875,7 +961,11 @@ func main() {
 		fmt.Printf("replaying case:\n%s\n", js)
 		if len(rep.Failures) > 0 {
 			f := rep.Failures[0]
-			fmt.Printf("STILL FAILS class=%s oracle=%s\n expected (new interpreter): %v\n got (reused interpreter):      %v\n", f.Class, f.Oracle, f.Detail["expected_fresh"], f.Detail["got_reused"])
+			if strings.HasPrefix(f.Class, "execprogram:") {
+				fmt.Printf("STILL FAILS class=%s oracle=%s\n ExecProgram:   %v\n New + Execute: %v\n", f.Class, f.Oracle, f.Detail["ExecProgram"], f.Detail["New+Execute"])
+			} else {
+				fmt.Printf("STILL FAILS class=%s oracle=%s\n expected (new interpreter): %v\n got (reused interpreter):      %v\n", f.Class, f.Oracle, f.Detail["expected_fresh"], f.Detail["got_reused"])
+			}
 			os.RemoveAll(dir)
 			os.Exit(1)
 		}
